@@ -30,6 +30,17 @@ pub struct RdpClient<S> {
 }
 
 impl<S: Read + Write> RdpClient<S> {
+    /// Verification hook (cfg rdp_rs_verif only): assemble a client from an
+    /// already connected MCS layer and a global channel, so that read / write /
+    /// try_write / shutdown can be driven over an in-memory transport.
+    #[cfg(rdp_rs_verif)]
+    pub fn verif_new(mcs: mcs::Client<S>, global: global::Client) -> Self {
+        RdpClient {
+            mcs,
+            global
+        }
+    }
+
     /// Read a payload from the server
     /// RDpClient use a callback pattern that can be called more than once
     /// during a read call
